@@ -139,7 +139,7 @@ func init() {
 			c14probes = append(c14probes, "cell:"+c+":"+st)
 		}
 	}
-	c14probes = append(c14probes, "leftovers-after-crash")
+	c14probes = append(c14probes, "leftovers-after-crash", "directory-with-trigger-and-view")
 	add(&simkit.Check{
 		Property: "C14",
 		Parts: []simkit.Part{
